@@ -16,13 +16,16 @@ Local Open Scope string_scope.
 
 (* ------------------------------------------------------------------ the site table *)
 
-Inductive kind := KAssert | KIndex | KPanic | KMust | KNilderef | KRecursion | KNilarg.
+Inductive kind := KAssert | KIndex | KPanic | KMust | KNilderef | KRecursion | KNilarg | KNilfield | KDyncmp.
 
 Inductive verdict :=
 | Validated (validator : string)   (* unreachable: an earlier stage (named) rejects every input that would reach it *)
 | ByConstruction (why : string)    (* guarded by the code's own construction (List.length check, range index, constant) *)
 | Reachable (finding : string)     (* reachable from package content / cluster state: a known finding *)
-| Library (why : string).          (* depends on a contract of a runtime library that is not modelled *)
+| Library (why : string)           (* depends on a contract of a runtime library that is not modelled *)
+| Fixed (commit : string) (finding : string).  (* HISTORICAL: a site of an earlier tree, repaired by the named commit;
+                                                  such entries are not part of [accounted] - if the site comes back the
+                                                  inventory no longer matches *)
 
 Record site := mk {
   s_file : string; s_func : string; s_kind : kind; s_expr : string; s_guarded : bool; s_n : N }.
@@ -30,7 +33,7 @@ Record site := mk {
 Definition kind_eqb (a b : kind) : bool :=
   match a, b with
   | KAssert, KAssert | KIndex, KIndex | KPanic, KPanic | KMust, KMust
-  | KNilderef, KNilderef | KRecursion, KRecursion | KNilarg, KNilarg => true
+  | KNilderef, KNilderef | KRecursion, KRecursion | KNilarg, KNilarg | KNilfield, KNilfield | KDyncmp, KDyncmp => true
   | _, _ => false
   end.
 
@@ -44,21 +47,21 @@ Inductive site_id :=
 | S_cmd_ObjectSet_getConditions | S_cmd_ObjectSet_Revision | S_cmd_FindRevision_idx | S_cmd_PackageSetPaused_panic
 | S_cmd_tree_getTemplateContext_0 | S_cmd_tree_getConfig_0 | S_cmd_update_lockImages
 (* internal/controllers/objecttemplate *)
-| S_ot_vslice0 | S_ot_destination0 | S_ot_destination0_fixed
-| S_ot_cond_type | S_ot_cond_status | S_ot_cond_reason | S_ot_cond_message
+| S_ot_vslice0 | S_v0_ot_destination0 | S_ot_destination0
+| S_v0_ot_cond_type | S_v0_ot_cond_status | S_v0_ot_cond_reason | S_v0_ot_cond_message
 | S_ot_jsonRegexp | S_ot_submatches1 | S_ot_submatches2
 (* internal/controllers *)
 | S_pr_desiredObjects | S_pr_prevGVK_panic | S_prl_previousSets
 (* packageimport *)
-| S_imp_walkWithSymlinks | S_imp_hdr
+| S_imp_walkWithSymlinks | S_v0_imp_hdr
 (* packagemanifestvalidation *)
 | S_mv_newlineMatcher | S_mv_testconfig_panic | S_mv_schema_recursion | S_mv_typeInfo | S_mv_xvalidations
-| S_mv_validatorAdapter_panic | S_mv_nil_envset | S_mv_nil_envloader | S_mv_MustBaseEnvSet_fixed | S_mv_nil_rootschema
+| S_mv_validatorAdapter_panic | S_v0_mv_nil_envset | S_v0_mv_nil_envloader | S_mv_MustBaseEnvSet | S_mv_nil_rootschema
 (* packagerender *)
 | S_cel_conditionNameRegexp | S_cel_evaluate_bool
 | S_cm_parts0 | S_cm_parts1 | S_cm_outputMappings
 | S_ro_paths_i | S_ro_paths_j
-| S_col_objs_i | S_col_panic | S_col_panic_fixed | S_col_entries_i | S_col_entries_j | S_col_phases_i
+| S_col_objs_i | S_v0_col_panic | S_col_panic | S_col_entries_i | S_col_entries_j | S_col_phases_i
 | S_tmpl_ctx_package | S_tmpl_ctx_metadata
 (* packagestructure *)
 | S_ps_gvks0 | S_ps_groupVersions | S_ps_versions | S_ps_init_panic | S_ps_parts1 | S_ps_load_recursion
@@ -70,7 +73,44 @@ Inductive site_id :=
 | S_bx_a_Release_idx | S_bx_a_getOwnerReferences_panic | S_bx_a_setOwnerReferences_panic | S_bx_a_indexOf
 | S_bx_a_cmp_panic1 | S_bx_a_cmp_panic2 | S_bx_a_kinds0
 | S_bx_remove_i | S_bx_remove_last | S_bx_remove_slice
-| S_bx_n_Release_idx | S_bx_n_cmp_panic1 | S_bx_n_cmp_panic2 | S_bx_n_referSame_panic.
+| S_bx_n_Release_idx | S_bx_n_cmp_panic1 | S_bx_n_cmp_panic2 | S_bx_n_referSame_panic
+(* dereferences of pointer-typed struct fields (kind nilfield), one per (function, chain, guarded) *)
+| N_cmd_WaitForCondition_w_waiter | N_tree_RenderPackage_pkgInstance_Manifest | N_tree_getTemplateContext_pkg_Manifest
+| N_tree_getConfig_pkg_Manifest | N_tree_getConfig_test_Context_Config
+| N_tree_getConfig_pkg_Manifest_Test_Template_0_Context_Config_via_testCtxCfg | N_update_GenerateLockData_pkg_Manifest
+| N_update_GenerateLockData_pkg_ManifestLock | N_config_GetBackoff_c_InitialBackoff | N_config_GetBackoff_c_MaxBackoff
+| N_objecttemplatecontroller_SetEnvironment_c_templateReconciler | N_requestmanager_handleResponse_res_RawPackage
+| N_helpers_getExpressionCost_cardinalityCost_MaxCardinality | N_helpers_validateMapListKeysMapSet_schema_Items
+| N_helpers_validateMapListKeysMapSet_schema_XListType | N_helpers_validateMapListKeysMapSet_schema_Items_Schema
+| N_manifest_ValidatePackageManifest_template_Context_Config | N_manifest_ValidatePackageManifest_obj_Test_Kubeconform
+| N_manifest_validateConstraints_constraint_PlatformVersion
+| N_private_validateCustomResourceDefinitionValidation_customResourceValidation_OpenAPIV3Schema_via_schema
+| N_private_validateCustomResourceDefinitionValidation_celContext_TotalCost
+| N_private_validateCustomResourceDefinitionOpenAPISchema_schema_AdditionalProperties
+| N_private_validateCustomResourceDefinitionOpenAPISchema_schema_XListType
+| N_private_validateCustomResourceDefinitionOpenAPISchema_schema_Items
+| N_private_validateCustomResourceDefinitionOpenAPISchema_schema_XPreserveUnknownFields
+| N_private_xmaptypenotnil_schema_XMapType | N_private_xlisttypenotnil_schema_XListType
+| N_private_xlisttypenotnil_schema_Items | N_private_xlisttypenotnil_schema_Items_Schema_via_is
+| N_private_xlisttypenotnil_is_XListType | N_private_xlisttypenotnil_is_XMapType
+| N_private_schemaitemsnotNil_schema_Items | N_private_schemaitemsnotNil_schema_Items_Schema
+| N_private_validateXListTypeMap_schema_Items | N_private_validateXListTypeMap_schema_Items_Schema
+| N_private_validateSchemaStuffWithXPrefixedName_celContext_TotalCost
+| N_private_validateSchemaStuffWithXPrefixedName_cr_Error
+| N_private_validatePackageManifestConfig_config_OpenAPIV3Schema_via_schema | N_private_Validate_v_v
+| N_validator_validate_schema_Items | N_cel_evaluate_cc_env | N_objects_RenderObjectsWithFilterInfo_pkg_Manifest
+| N_objectsettemplate_RenderObjectSetTemplateSpec_pkgInstance_Manifest | N_template_RenderTemplates_pkg_Manifest
+| N_structure_load_pkg_Manifest | N_kubeconform_defaultKubeconformSchemaLocations_manifest_Test_Kubeconform
+| N_kubeconform_kubeconformValidatorFromManifest_manifest_Test_Kubeconform
+| N_lockfile_ValidatePackage_pkg_ManifestLock | N_lockfile_ValidatePackage_pkg_Manifest
+| N_lockfile_ValidatePackage_pkg_ManifestLock_2 | N_templatevalidation_doValidatePackage_pkg_Manifest
+| N_templatevalidation_runTestCase_testCase_Context_Config | N_validation_ValidatePackage_pkg_Manifest
+| N_validation_ValidatePackage_pkg_Manifest_2 | N_parse_ParseSelector_selector_Kind
+| N_parse_ParseProbes_probeSpec_FieldsEqual | N_parse_ParseProbes_probeSpec_Condition
+| N_parse_ParseProbes_probeSpec_CEL | N_bxannotation_GetController_ref_Controller
+| N_bxannotation_SetControllerReference_ownerRef_Controller | N_bxannotation_IsController_ownerRef_Controller
+| N_bxannotation_isController_r_Controller | N_bxannotation_getOwnerReconcileRequest_e_ownerStrategy
+| N_bxnative_GetController_ref_Controller | N_bxnative_IsController_ownerRef_Controller.
 
 Definition F_cmd_client := "internal/cmd/client.go".
 Definition F_ot := "internal/controllers/objecttemplate/template_reconciler.go".
@@ -105,12 +145,12 @@ Definition descr (i : site_id) : site :=
   | S_cmd_tree_getConfig_0 => mk "internal/cmd/tree.go" "(*Tree).getConfig" KIndex "pkg.Manifest.Test.Template[0]" true 1
   | S_cmd_update_lockImages => mk "internal/cmd/update.go" "(Update).GenerateLockData" KIndex "lockImages[i]" false 1
   | S_ot_vslice0 => mk F_ot "copySourceItem" KIndex "vslice[0]" true 1
-  | S_ot_destination0 => mk F_ot "copySourceItem" KIndex "item.Destination[0]" false 1
-  | S_ot_destination0_fixed => mk F_ot "copySourceItem" KIndex "item.Destination[0]" true 1
-  | S_ot_cond_type => mk F_ot Fn_ot_update KAssert "condMap[""type""].(string)" false 1
-  | S_ot_cond_status => mk F_ot Fn_ot_update KAssert "condMap[""status""].(string)" false 1
-  | S_ot_cond_reason => mk F_ot Fn_ot_update KAssert "condMap[""reason""].(string)" false 1
-  | S_ot_cond_message => mk F_ot Fn_ot_update KAssert "condMap[""message""].(string)" false 1
+  | S_v0_ot_destination0 => mk F_ot "copySourceItem" KIndex "item.Destination[0]" false 1
+  | S_ot_destination0 => mk F_ot "copySourceItem" KIndex "item.Destination[0]" true 1
+  | S_v0_ot_cond_type => mk F_ot Fn_ot_update KAssert "condMap[""type""].(string)" false 1
+  | S_v0_ot_cond_status => mk F_ot Fn_ot_update KAssert "condMap[""status""].(string)" false 1
+  | S_v0_ot_cond_reason => mk F_ot Fn_ot_update KAssert "condMap[""reason""].(string)" false 1
+  | S_v0_ot_cond_message => mk F_ot Fn_ot_update KAssert "condMap[""message""].(string)" false 1
   | S_ot_jsonRegexp => mk F_ot "var jsonRegexp" KMust "regexp.MustCompile(`^\{\.?([^{}]+)\}$|^\.?([^{}]+)$`)" true 1
   | S_ot_submatches1 => mk F_ot "RelaxedJSONPathExpression" KIndex "submatches[1]" true 2
   | S_ot_submatches2 => mk F_ot "RelaxedJSONPathExpression" KIndex "submatches[2]" true 1
@@ -123,7 +163,7 @@ Definition descr (i : site_id) : site :=
       mk "internal/controllers/previous_revision_lookup.go" "(*PreviousRevisionLookup).Lookup" KIndex "previousSets[i]" false 1
   | S_imp_walkWithSymlinks =>
       mk "internal/packages/internal/packageimport/index.go" "walkWithSymlinks" KRecursion "walkWithSymlinks" false 1
-  | S_imp_hdr =>
+  | S_v0_imp_hdr =>
       mk "internal/packages/internal/packageimport/oci.go" "FromOCI" KNilderef "hdr.Name after tarReader.Next()" false 1
   | S_mv_newlineMatcher =>
       mk "internal/packages/internal/packagemanifestvalidation/helpers.go" "var newlineMatcher" KMust
@@ -138,9 +178,9 @@ Definition descr (i : site_id) : site :=
   | S_mv_validatorAdapter_panic =>
       mk F_mv_private "(validatorAdapter).Validate" KPanic
          "panic(""got options from apiextensions-apiserver but kube-openapi does not support them"")" false 1
-  | S_mv_nil_envset =>
+  | S_v0_mv_nil_envset =>
       mk F_mv_private "validateSchemaStuffWithXPrefixedName" KNilarg "nil arg 3 (*environment.EnvSet) of cel.Compile" false 1
-  | S_mv_nil_envloader =>
+  | S_v0_mv_nil_envloader =>
       mk F_mv_private "validateSchemaStuffWithXPrefixedName" KNilarg "nil arg 4 (cel.EnvLoader) of cel.Compile" false 1
   | S_mv_nil_rootschema =>
       mk F_mv_private "validatePackageConfigurationBySchema" KNilarg "nil arg 1 (interface{}) of validate.NewSchemaValidator" false 1
@@ -148,7 +188,7 @@ Definition descr (i : site_id) : site :=
   | S_ps_convert_ctx_lock => mk F_psm "ToV1Alpha1ManifestLock" KNilarg "nil arg 2 (interface{}) of scheme.Convert" false 1
   | S_ps_convert_ctx_repo => mk F_psm "ToV1Alpha1Repository" KNilarg "nil arg 2 (interface{}) of scheme.Convert" false 1
   | S_ps_convert_ctx_entry => mk F_psm "ToV1Alpha1RepositoryEntry" KNilarg "nil arg 2 (interface{}) of scheme.Convert" false 1
-  | S_mv_MustBaseEnvSet_fixed =>
+  | S_mv_MustBaseEnvSet =>
       mk F_mv_private "validateSchemaStuffWithXPrefixedName" KMust
          "environment.MustBaseEnvSet(environment.DefaultCompatibilityVersion(), true)" false 1
   | S_cel_conditionNameRegexp =>
@@ -162,8 +202,8 @@ Definition descr (i : site_id) : site :=
   | S_ro_paths_i => mk F_ro "RenderObjectsWithFilter" KIndex "paths[i]" false 2
   | S_ro_paths_j => mk F_ro "RenderObjectsWithFilter" KIndex "paths[j]" false 1
   | S_col_objs_i => mk F_col "(phaseCollector).AddObjects" KIndex "objs[i]" true 1
-  | S_col_panic => mk F_col "(phaseCollector).AddObjects" KPanic "panic(err)" false 1
-  | S_col_panic_fixed =>
+  | S_v0_col_panic => mk F_col "(phaseCollector).AddObjects" KPanic "panic(err)" false 1
+  | S_col_panic =>
       mk F_col "(phaseCollector).AddObjects" KPanic
          "panic(fmt.Errorf(""condition-map annotation was accepted when parsing objects but is invalid: %w"", err))" false 1
   | S_col_entries_i => mk F_col "(phaseCollector).Collect" KIndex "entries[i]" true 1
@@ -203,6 +243,71 @@ Definition descr (i : site_id) : site :=
       mk F_bxn "(*OwnerStrategyNative).ownerRefForCompare" KPanic ("panic(fmt.Sprintf(""" ++ NotRunnable ++ """, owner))") false 1
   | S_bx_n_cmp_panic2 => mk F_bxn "(*OwnerStrategyNative).ownerRefForCompare" KPanic "panic(err)" false 1
   | S_bx_n_referSame_panic => mk F_bxn "(*OwnerStrategyNative).referSameObject" KPanic "panic(err)" false 2
+  | N_cmd_WaitForCondition_w_waiter => mk "internal/cmd/cmd.go" "(*DefaultWaiter).WaitForCondition" KNilfield "w.waiter" false 1
+  | N_tree_RenderPackage_pkgInstance_Manifest => mk "internal/cmd/tree.go" "(*Tree).RenderPackage" KNilfield "pkgInstance.Manifest" false 1
+  | N_tree_getTemplateContext_pkg_Manifest => mk "internal/cmd/tree.go" "(*Tree).getTemplateContext" KNilfield "pkg.Manifest" false 3
+  | N_tree_getConfig_pkg_Manifest => mk "internal/cmd/tree.go" "(*Tree).getConfig" KNilfield "pkg.Manifest" false 3
+  | N_tree_getConfig_test_Context_Config => mk "internal/cmd/tree.go" "(*Tree).getConfig" KNilfield "test.Context.Config" true 1
+  | N_tree_getConfig_pkg_Manifest_Test_Template_0_Context_Config_via_testCtxCfg => mk "internal/cmd/tree.go" "(*Tree).getConfig" KNilfield "pkg.Manifest.Test.Template[0].Context.Config (via testCtxCfg)" true 1
+  | N_update_GenerateLockData_pkg_Manifest => mk "internal/cmd/update.go" "(Update).GenerateLockData" KNilfield "pkg.Manifest" false 2
+  | N_update_GenerateLockData_pkg_ManifestLock => mk "internal/cmd/update.go" "(Update).GenerateLockData" KNilfield "pkg.ManifestLock" true 1
+  | N_config_GetBackoff_c_InitialBackoff => mk "internal/controllers/config.go" "(*BackoffConfig).GetBackoff" KNilfield "c.InitialBackoff" false 1
+  | N_config_GetBackoff_c_MaxBackoff => mk "internal/controllers/config.go" "(*BackoffConfig).GetBackoff" KNilfield "c.MaxBackoff" false 1
+  | N_objecttemplatecontroller_SetEnvironment_c_templateReconciler => mk "internal/controllers/objecttemplate/objecttemplate_controller.go" "(*GenericObjectTemplateController).SetEnvironment" KNilfield "c.templateReconciler" false 1
+  | N_requestmanager_handleResponse_res_RawPackage => mk "internal/packages/internal/packageimport/request_manager.go" "(*RequestManager).handleResponse" KNilfield "res.RawPackage" true 1
+  | N_helpers_getExpressionCost_cardinalityCost_MaxCardinality => mk "internal/packages/internal/packagemanifestvalidation/helpers.go" "getExpressionCost" KNilfield "cardinalityCost.MaxCardinality" false 1
+  | N_helpers_validateMapListKeysMapSet_schema_Items => mk "internal/packages/internal/packagemanifestvalidation/helpers.go" "validateMapListKeysMapSet" KNilfield "schema.Items" true 5
+  | N_helpers_validateMapListKeysMapSet_schema_XListType => mk "internal/packages/internal/packagemanifestvalidation/helpers.go" "validateMapListKeysMapSet" KNilfield "schema.XListType" true 4
+  | N_helpers_validateMapListKeysMapSet_schema_Items_Schema => mk "internal/packages/internal/packagemanifestvalidation/helpers.go" "validateMapListKeysMapSet" KNilfield "schema.Items.Schema" true 4
+  | N_manifest_ValidatePackageManifest_template_Context_Config => mk "internal/packages/internal/packagemanifestvalidation/manifest.go" "ValidatePackageManifest" KNilfield "template.Context.Config" true 1
+  | N_manifest_ValidatePackageManifest_obj_Test_Kubeconform => mk "internal/packages/internal/packagemanifestvalidation/manifest.go" "ValidatePackageManifest" KNilfield "obj.Test.Kubeconform" true 1
+  | N_manifest_validateConstraints_constraint_PlatformVersion => mk "internal/packages/internal/packagemanifestvalidation/manifest.go" "validateConstraints" KNilfield "constraint.PlatformVersion" true 4
+  | N_private_validateCustomResourceDefinitionValidation_customResourceValidation_OpenAPIV3Schema_via_schema => mk "internal/packages/internal/packagemanifestvalidation/private.go" "validateCustomResourceDefinitionValidation" KNilfield "customResourceValidation.OpenAPIV3Schema (via schema)" true 1
+  | N_private_validateCustomResourceDefinitionValidation_celContext_TotalCost => mk "internal/packages/internal/packagemanifestvalidation/private.go" "validateCustomResourceDefinitionValidation" KNilfield "celContext.TotalCost" true 3
+  | N_private_validateCustomResourceDefinitionOpenAPISchema_schema_AdditionalProperties => mk "internal/packages/internal/packagemanifestvalidation/private.go" "validateCustomResourceDefinitionOpenAPISchema" KNilfield "schema.AdditionalProperties" true 4
+  | N_private_validateCustomResourceDefinitionOpenAPISchema_schema_XListType => mk "internal/packages/internal/packagemanifestvalidation/private.go" "validateCustomResourceDefinitionOpenAPISchema" KNilfield "schema.XListType" true 3
+  | N_private_validateCustomResourceDefinitionOpenAPISchema_schema_Items => mk "internal/packages/internal/packagemanifestvalidation/private.go" "validateCustomResourceDefinitionOpenAPISchema" KNilfield "schema.Items" true 4
+  | N_private_validateCustomResourceDefinitionOpenAPISchema_schema_XPreserveUnknownFields => mk "internal/packages/internal/packagemanifestvalidation/private.go" "validateCustomResourceDefinitionOpenAPISchema" KNilfield "schema.XPreserveUnknownFields" true 2
+  | N_private_xmaptypenotnil_schema_XMapType => mk "internal/packages/internal/packagemanifestvalidation/private.go" "xmaptypenotnil" KNilfield "schema.XMapType" true 3
+  | N_private_xlisttypenotnil_schema_XListType => mk "internal/packages/internal/packagemanifestvalidation/private.go" "xlisttypenotnil" KNilfield "schema.XListType" true 6
+  | N_private_xlisttypenotnil_schema_Items => mk "internal/packages/internal/packagemanifestvalidation/private.go" "xlisttypenotnil" KNilfield "schema.Items" true 2
+  | N_private_xlisttypenotnil_schema_Items_Schema_via_is => mk "internal/packages/internal/packagemanifestvalidation/private.go" "xlisttypenotnil" KNilfield "schema.Items.Schema (via is)" true 7
+  | N_private_xlisttypenotnil_is_XListType => mk "internal/packages/internal/packagemanifestvalidation/private.go" "xlisttypenotnil" KNilfield "is.XListType" true 1
+  | N_private_xlisttypenotnil_is_XMapType => mk "internal/packages/internal/packagemanifestvalidation/private.go" "xlisttypenotnil" KNilfield "is.XMapType" true 1
+  | N_private_schemaitemsnotNil_schema_Items => mk "internal/packages/internal/packagemanifestvalidation/private.go" "schemaitemsnotNil" KNilfield "schema.Items" false 4
+  | N_private_schemaitemsnotNil_schema_Items_Schema => mk "internal/packages/internal/packagemanifestvalidation/private.go" "schemaitemsnotNil" KNilfield "schema.Items.Schema" true 2
+  | N_private_validateXListTypeMap_schema_Items => mk "internal/packages/internal/packagemanifestvalidation/private.go" "validateXListTypeMap" KNilfield "schema.Items" true 4
+  | N_private_validateXListTypeMap_schema_Items_Schema => mk "internal/packages/internal/packagemanifestvalidation/private.go" "validateXListTypeMap" KNilfield "schema.Items.Schema" true 3
+  | N_private_validateSchemaStuffWithXPrefixedName_celContext_TotalCost => mk "internal/packages/internal/packagemanifestvalidation/private.go" "validateSchemaStuffWithXPrefixedName" KNilfield "celContext.TotalCost" true 1
+  | N_private_validateSchemaStuffWithXPrefixedName_cr_Error => mk "internal/packages/internal/packagemanifestvalidation/private.go" "validateSchemaStuffWithXPrefixedName" KNilfield "cr.Error" true 3
+  | N_private_validatePackageManifestConfig_config_OpenAPIV3Schema_via_schema => mk "internal/packages/internal/packagemanifestvalidation/private.go" "validatePackageManifestConfig" KNilfield "config.OpenAPIV3Schema (via schema)" true 1
+  | N_private_Validate_v_v => mk "internal/packages/internal/packagemanifestvalidation/private.go" "(validatorAdapter).Validate" KNilfield "v.v" false 1
+  | N_validator_validate_schema_Items => mk "internal/packages/internal/packagemanifestvalidation/validator.go" "(*specStandardValidatorV3).validate" KNilfield "schema.Items" true 1
+  | N_cel_evaluate_cc_env => mk "internal/packages/internal/packagerender/celctx/cel.go" "(*CelCtx).evaluate" KNilfield "cc.env" false 1
+  | N_objects_RenderObjectsWithFilterInfo_pkg_Manifest => mk "internal/packages/internal/packagerender/objects.go" "RenderObjectsWithFilterInfo" KNilfield "pkg.Manifest" false 1
+  | N_objectsettemplate_RenderObjectSetTemplateSpec_pkgInstance_Manifest => mk "internal/packages/internal/packagerender/objectsettemplate.go" "RenderObjectSetTemplateSpec" KNilfield "pkgInstance.Manifest" false 2
+  | N_template_RenderTemplates_pkg_Manifest => mk "internal/packages/internal/packagerender/template.go" "RenderTemplates" KNilfield "pkg.Manifest" false 1
+  | N_structure_load_pkg_Manifest => mk "internal/packages/internal/packagestructure/structure.go" "(*StructuralLoader).load" KNilfield "pkg.Manifest" false 2
+  | N_kubeconform_defaultKubeconformSchemaLocations_manifest_Test_Kubeconform => mk "internal/packages/internal/packagevalidation/kubeconform.go" "defaultKubeconformSchemaLocations" KNilfield "manifest.Test.Kubeconform" false 2
+  | N_kubeconform_kubeconformValidatorFromManifest_manifest_Test_Kubeconform => mk "internal/packages/internal/packagevalidation/kubeconform.go" "kubeconformValidatorFromManifest" KNilfield "manifest.Test.Kubeconform" true 1
+  | N_lockfile_ValidatePackage_pkg_ManifestLock => mk "internal/packages/internal/packagevalidation/lockfile.go" "(*LockfileDigestLookupValidator).ValidatePackage" KNilfield "pkg.ManifestLock" true 1
+  | N_lockfile_ValidatePackage_pkg_Manifest => mk "internal/packages/internal/packagevalidation/lockfile.go" "(*LockfileConsistencyValidator).ValidatePackage" KNilfield "pkg.Manifest" false 2
+  | N_lockfile_ValidatePackage_pkg_ManifestLock_2 => mk "internal/packages/internal/packagevalidation/lockfile.go" "(*LockfileConsistencyValidator).ValidatePackage" KNilfield "pkg.ManifestLock" true 1
+  | N_templatevalidation_doValidatePackage_pkg_Manifest => mk "internal/packages/internal/packagevalidation/templatevalidation.go" "(TemplateTestValidator).doValidatePackage" KNilfield "pkg.Manifest" false 2
+  | N_templatevalidation_runTestCase_testCase_Context_Config => mk "internal/packages/internal/packagevalidation/templatevalidation.go" "(TemplateTestValidator).runTestCase" KNilfield "testCase.Context.Config" true 1
+  | N_validation_ValidatePackage_pkg_Manifest => mk "internal/packages/internal/packagevalidation/validation.go" "(PackageScopeValidator).ValidatePackage" KNilfield "pkg.Manifest" false 1
+  | N_validation_ValidatePackage_pkg_Manifest_2 => mk "internal/packages/internal/packagevalidation/validation.go" "(PackageStaticFilesWithoutTestCasesValidator).ValidatePackage" KNilfield "pkg.Manifest" false 1
+  | N_parse_ParseSelector_selector_Kind => mk "internal/probing/parse.go" "ParseSelector" KNilfield "selector.Kind" true 2
+  | N_parse_ParseProbes_probeSpec_FieldsEqual => mk "internal/probing/parse.go" "ParseProbes" KNilfield "probeSpec.FieldsEqual" true 2
+  | N_parse_ParseProbes_probeSpec_Condition => mk "internal/probing/parse.go" "ParseProbes" KNilfield "probeSpec.Condition" true 2
+  | N_parse_ParseProbes_probeSpec_CEL => mk "internal/probing/parse.go" "ParseProbes" KNilfield "probeSpec.CEL" true 2
+  | N_bxannotation_GetController_ref_Controller => mk "pkg.package-operator.run/boxcutter/ownerhandling/annotation.go" "(*OwnerStrategyAnnotation).GetController" KNilfield "ref.Controller" true 1
+  | N_bxannotation_SetControllerReference_ownerRef_Controller => mk "pkg.package-operator.run/boxcutter/ownerhandling/annotation.go" "(*OwnerStrategyAnnotation).SetControllerReference" KNilfield "ownerRef.Controller" true 1
+  | N_bxannotation_IsController_ownerRef_Controller => mk "pkg.package-operator.run/boxcutter/ownerhandling/annotation.go" "(*OwnerStrategyAnnotation).IsController" KNilfield "ownerRef.Controller" true 1
+  | N_bxannotation_isController_r_Controller => mk "pkg.package-operator.run/boxcutter/ownerhandling/annotation.go" "(*annotationOwnerRef).isController" KNilfield "r.Controller" true 1
+  | N_bxannotation_getOwnerReconcileRequest_e_ownerStrategy => mk "pkg.package-operator.run/boxcutter/ownerhandling/annotation.go" "(*AnnotationEnqueueRequestForOwner).getOwnerReconcileRequest" KNilfield "e.ownerStrategy" false 1
+  | N_bxnative_GetController_ref_Controller => mk "pkg.package-operator.run/boxcutter/ownerhandling/native.go" "(*OwnerStrategyNative).GetController" KNilfield "ref.Controller" true 1
+  | N_bxnative_IsController_ownerRef_Controller => mk "pkg.package-operator.run/boxcutter/ownerhandling/native.go" "(*OwnerStrategyNative).IsController" KNilfield "ownerRef.Controller" true 1
   end.
 
 Definition F_C19a := "C19 panic packagerender.phaseCollector.AddObjects: condition-map annotation not validated".
@@ -215,6 +320,8 @@ Definition F_C19f := "C19 panic packagemanifestvalidation.validateSchemaStuffWit
 
 Definition typed_obj := "the receiver's obj field is only ever set from a typed Get/List of exactly the two kinds the preceding comma-ok assertion distinguishes (client.go constructors)".
 Definition range_index := "index is the key of a range over a slice of the same length (made with len(..) of the ranged slice, or the slice itself)".
+Definition nil_dominated := "every dereference of the chain is dominated, in the same function, by a nil check of it (enclosing `if .. != nil`, left operand of the same && / ||, earlier `if .. == nil { return }`, earlier `case .. == nil`): the translator's guard for kind nilfield; removing the check flips the flag and the site is no longer in the table".
+Definition manifest_set := "the Package / PackageInstance comes from StructuralLoader.load, which returns ViolationReasonPackageManifestNotFound instead of a package without manifest (structure.go); RenderPackageInstance copies the pointer".
 Definition programmer := "argument is a typed API object registered in the operator's scheme; not influenced by package content or cluster object state".
 
 Definition verdict_of (i : site_id) : verdict :=
@@ -227,34 +334,34 @@ Definition verdict_of (i : site_id) : verdict :=
   | S_cmd_tree_getTemplateContext_0 | S_cmd_tree_getConfig_0 => ByConstruction "case guard len(pkg.Manifest.Test.Template) > 0"
   | S_cmd_update_lockImages => ByConstruction range_index
   | S_ot_vslice0 => ByConstruction "guard ok && len(vslice) == 1 in the same condition (model: copy_source_item)"
-  | S_ot_destination0 => Reachable F_C19d
-  | S_ot_destination0_fixed => ByConstruction "length check on item.Destination before the index (shape after fixes/C19-objecttemplate.diff)"
-  | S_ot_cond_type | S_ot_cond_status | S_ot_cond_reason | S_ot_cond_message => Reachable F_C19c
+  | S_v0_ot_destination0 => Fixed "a818a7e" F_C19d
+  | S_ot_destination0 => ByConstruction "length check on item.Destination before the index (commit a818a7e; model: copy_source_item)"
+  | S_v0_ot_cond_type | S_v0_ot_cond_status | S_v0_ot_cond_reason | S_v0_ot_cond_message => Fixed "a818a7e" F_C19c
   | S_ot_jsonRegexp => ByConstruction "constant pattern, compiled at package init: fails on every start or never"
   | S_ot_submatches1 | S_ot_submatches2 => ByConstruction "guard len(submatches) != 3 returns first (model: relaxed_jsonpath)"
   | S_pr_desiredObjects | S_prl_previousSets => ByConstruction range_index
   | S_pr_prevGVK_panic => ByConstruction programmer
   | S_imp_walkWithSymlinks => Library "recursion follows directory symlinks of the local source tree of `kubectl package`; depth bounded by PATH_MAX (EvalSymlinks/Lstat fail with ENAMETOOLONG / ELOOP); exercised by the cli target only through FromFolder, which does not use Index"
-  | S_imp_hdr => Reachable F_C19b
+  | S_v0_imp_hdr => Fixed "e1805ac" F_C19b
   | S_mv_newlineMatcher | S_cel_conditionNameRegexp => ByConstruction "constant pattern, compiled at package init"
   | S_mv_testconfig_panic => Validated "validatePackageManifestConfig (same function): the branch runs only if the config schema produced no validation error; ConvertJSONSchemaProps fails only on schemas that validation rejects"
   | S_mv_schema_recursion => Library "structural recursion over the OpenAPI schema tree decoded from the manifest: depth bounded by the YAML/JSON decoder's nesting limit"
   | S_mv_typeInfo => ByConstruction "switch: `case err != nil` and `case typeInfo == nil` precede the default branch that dereferences typeInfo"
   | S_mv_xvalidations => Library "cel.Compile returns one result per rule of typeInfo.Schema.XValidations, which is schema.XValidations (apiextensions-apiserver contract)"
   | S_mv_validatorAdapter_panic => Library "apiextensions-apiserver's ValidateCustomResource passes no options (pinned dependency version)"
-  | S_mv_nil_envset | S_mv_nil_envloader => Reachable F_C19f
+  | S_v0_mv_nil_envset | S_v0_mv_nil_envloader => Fixed "35e301a" F_C19f
   | S_mv_nil_rootschema => Library "kube-openapi validate.NewSchemaValidator: rootSchema may be nil (used for $ref resolution only; refs are forbidden in structural schemas)"
   | S_ps_convert_ctx_manifest | S_ps_convert_ctx_lock | S_ps_convert_ctx_repo | S_ps_convert_ctx_entry =>
       Library "apimachinery runtime.Scheme.Convert: the context argument is opaque and may be nil"
-  | S_mv_MustBaseEnvSet_fixed => Library "apiserver cel/environment: MustBaseEnvSet panics only if the built-in library set does not compile for the compatibility version - constant inputs, independent of the package (shape after fixes/C19-xvalidations.diff)"
+  | S_mv_MustBaseEnvSet => Library "apiserver cel/environment: MustBaseEnvSet panics only if the built-in library set does not compile for the compatibility version - constant inputs, independent of the package (commit 35e301a)"
   | S_cel_evaluate_bool | S_pp_cel_bool => Library "cel-go: a value whose Type() is BoolType (checked on the line before / at compile time) carries a Go bool"
   | S_cm_parts0 | S_cm_parts1 => ByConstruction "guard len(parts) != 2 returns first (model: parse_lines, theorem condmap_index_sites_unreachable)"
   | S_cm_outputMappings => ByConstruction (range_index ++ " (model: parse_lines)")
   | S_ro_paths_i => ByConstruction "i counts the entries of the map the slice was sized from; inside sort.Slice's less callback i < len"
   | S_ro_paths_j => Library "sort.Slice calls less with indices below the slice length"
   | S_col_objs_i => ByConstruction (range_index ++ " (model: add_objects)")
-  | S_col_panic => Reachable F_C19a
-  | S_col_panic_fixed => Validated "packagerender.parseObjects: every object is refused with ViolationReasonInvalidConditionMap unless parseConditionMapAnnotation accepts it (shape after fixes/C19-condition-map.diff; model: render_and_collect_fixed)"
+  | S_v0_col_panic => Fixed "6890742" F_C19a
+  | S_col_panic => Validated "packagerender.parseObjects: every object is refused with ViolationReasonInvalidConditionMap unless parseConditionMapAnnotation accepts it (commit 6890742; model: render_and_collect, theorem collector_total)"
   | S_col_entries_i | S_col_entries_j => Library "sort.Slice calls less with indices below the slice length"
   | S_col_phases_i => ByConstruction range_index
   | S_tmpl_ctx_package | S_tmpl_ctx_metadata => ByConstruction "actualCtx is the JSON round trip of a PackageRenderContext struct: package and package.metadata are structs without omitempty, hence always objects"
@@ -273,6 +380,57 @@ Definition verdict_of (i : site_id) : verdict :=
   | S_bx_a_setOwnerReferences_panic => Library "encoding/json cannot fail on a slice of structs of strings and *bool"
   | S_bx_a_kinds0 => ByConstruction "guard len(kinds) != 1 returns first"
   | S_bx_remove_i | S_bx_remove_last | S_bx_remove_slice => ByConstruction "only called with an index found by ranging over the same slice (RemoveOwner)"
+  | N_cmd_WaitForCondition_w_waiter => ByConstruction "set by NewDefaultWaiter, the only constructor; kubectl-package plumbing, not an input of the quantifier"
+  | N_tree_RenderPackage_pkgInstance_Manifest => ByConstruction manifest_set
+  | N_tree_getTemplateContext_pkg_Manifest => ByConstruction manifest_set
+  | N_tree_getConfig_pkg_Manifest => ByConstruction manifest_set
+  | N_update_GenerateLockData_pkg_Manifest => ByConstruction manifest_set
+  | N_config_GetBackoff_c_InitialBackoff => ByConstruction "BackoffConfig.Default() fills both pointers before GetBackoff is used (controllers/config.go); operator flags, not an input of the quantifier"
+  | N_config_GetBackoff_c_MaxBackoff => ByConstruction "BackoffConfig.Default() fills both pointers before GetBackoff is used (controllers/config.go); operator flags, not an input of the quantifier"
+  | N_objecttemplatecontroller_SetEnvironment_c_templateReconciler => ByConstruction "set by newGenericObjectTemplateController, the only constructor"
+  | N_helpers_getExpressionCost_cardinalityCost_MaxCardinality => ByConstruction "compared with the package variable `unbounded` (a nil *uint64) on the line before the dereference"
+  | N_private_schemaitemsnotNil_schema_Items => ByConstruction "schemaitemsnotNil is only called from the else branch of `if schema.Items == nil` in validateXListTypeMap"
+  | N_private_Validate_v_v => ByConstruction "validatorAdapter is only built as validatorAdapter{v} from validate.NewSchemaValidator, which never returns nil"
+  | N_cel_evaluate_cc_env => ByConstruction "set by celctx.New, the only constructor, which returns an error instead of a context without environment"
+  | N_objects_RenderObjectsWithFilterInfo_pkg_Manifest => ByConstruction manifest_set
+  | N_objectsettemplate_RenderObjectSetTemplateSpec_pkgInstance_Manifest => ByConstruction manifest_set
+  | N_template_RenderTemplates_pkg_Manifest => ByConstruction manifest_set
+  | N_structure_load_pkg_Manifest => ByConstruction manifest_set
+  | N_kubeconform_defaultKubeconformSchemaLocations_manifest_Test_Kubeconform => ByConstruction "defaultKubeconformSchemaLocations is only called by kubeconformValidatorFromManifest after its `manifest.Test.Kubeconform == nil` return"
+  | N_lockfile_ValidatePackage_pkg_Manifest => ByConstruction manifest_set
+  | N_templatevalidation_doValidatePackage_pkg_Manifest => ByConstruction manifest_set
+  | N_validation_ValidatePackage_pkg_Manifest => ByConstruction manifest_set
+  | N_validation_ValidatePackage_pkg_Manifest_2 => ByConstruction manifest_set
+  | N_bxannotation_getOwnerReconcileRequest_e_ownerStrategy => ByConstruction "set by OwnerStrategyAnnotation.EnqueueRequestForOwner, the only constructor of the handler"
+  | N_tree_getConfig_test_Context_Config | N_tree_getConfig_pkg_Manifest_Test_Template_0_Context_Config_via_testCtxCfg
+  | N_update_GenerateLockData_pkg_ManifestLock | N_requestmanager_handleResponse_res_RawPackage
+  | N_helpers_validateMapListKeysMapSet_schema_Items | N_helpers_validateMapListKeysMapSet_schema_XListType
+  | N_helpers_validateMapListKeysMapSet_schema_Items_Schema
+  | N_manifest_ValidatePackageManifest_template_Context_Config
+  | N_manifest_ValidatePackageManifest_obj_Test_Kubeconform
+  | N_manifest_validateConstraints_constraint_PlatformVersion
+  | N_private_validateCustomResourceDefinitionValidation_customResourceValidation_OpenAPIV3Schema_via_schema
+  | N_private_validateCustomResourceDefinitionValidation_celContext_TotalCost
+  | N_private_validateCustomResourceDefinitionOpenAPISchema_schema_AdditionalProperties
+  | N_private_validateCustomResourceDefinitionOpenAPISchema_schema_XListType
+  | N_private_validateCustomResourceDefinitionOpenAPISchema_schema_Items
+  | N_private_validateCustomResourceDefinitionOpenAPISchema_schema_XPreserveUnknownFields
+  | N_private_xmaptypenotnil_schema_XMapType | N_private_xlisttypenotnil_schema_XListType
+  | N_private_xlisttypenotnil_schema_Items | N_private_xlisttypenotnil_schema_Items_Schema_via_is
+  | N_private_xlisttypenotnil_is_XListType | N_private_xlisttypenotnil_is_XMapType
+  | N_private_schemaitemsnotNil_schema_Items_Schema | N_private_validateXListTypeMap_schema_Items
+  | N_private_validateXListTypeMap_schema_Items_Schema
+  | N_private_validateSchemaStuffWithXPrefixedName_celContext_TotalCost
+  | N_private_validateSchemaStuffWithXPrefixedName_cr_Error
+  | N_private_validatePackageManifestConfig_config_OpenAPIV3Schema_via_schema | N_validator_validate_schema_Items
+  | N_kubeconform_kubeconformValidatorFromManifest_manifest_Test_Kubeconform
+  | N_lockfile_ValidatePackage_pkg_ManifestLock | N_lockfile_ValidatePackage_pkg_ManifestLock_2
+  | N_templatevalidation_runTestCase_testCase_Context_Config | N_parse_ParseSelector_selector_Kind
+  | N_parse_ParseProbes_probeSpec_FieldsEqual | N_parse_ParseProbes_probeSpec_Condition
+  | N_parse_ParseProbes_probeSpec_CEL | N_bxannotation_GetController_ref_Controller
+  | N_bxannotation_SetControllerReference_ownerRef_Controller | N_bxannotation_IsController_ownerRef_Controller
+  | N_bxannotation_isController_r_Controller | N_bxnative_GetController_ref_Controller
+  | N_bxnative_IsController_ownerRef_Controller => ByConstruction nil_dominated
   | S_bx_n_referSame_panic => Validated "kube-apiserver ValidateOwnerReferences: metadata.ownerReferences[].apiVersion of a stored object parses as a group/version; the other operand is built from the scheme"
   end.
 
@@ -280,17 +438,17 @@ Definition all_sites : list site_id :=
   [ S_cmd_Package_CurrentRevision; S_cmd_ObjectDeployment_CurrentRevision; S_cmd_findObjectSets_items;
     S_cmd_ObjectSet_getConditions; S_cmd_ObjectSet_Revision; S_cmd_FindRevision_idx; S_cmd_PackageSetPaused_panic;
     S_cmd_tree_getTemplateContext_0; S_cmd_tree_getConfig_0; S_cmd_update_lockImages;
-    S_ot_vslice0; S_ot_destination0; S_ot_destination0_fixed;
-    S_ot_cond_type; S_ot_cond_status; S_ot_cond_reason; S_ot_cond_message;
+    S_ot_vslice0; S_v0_ot_destination0; S_ot_destination0;
+    S_v0_ot_cond_type; S_v0_ot_cond_status; S_v0_ot_cond_reason; S_v0_ot_cond_message;
     S_ot_jsonRegexp; S_ot_submatches1; S_ot_submatches2;
     S_pr_desiredObjects; S_pr_prevGVK_panic; S_prl_previousSets;
-    S_imp_walkWithSymlinks; S_imp_hdr;
+    S_imp_walkWithSymlinks; S_v0_imp_hdr;
     S_mv_newlineMatcher; S_mv_testconfig_panic; S_mv_schema_recursion; S_mv_typeInfo; S_mv_xvalidations;
-    S_mv_validatorAdapter_panic; S_mv_nil_envset; S_mv_nil_envloader; S_mv_MustBaseEnvSet_fixed; S_mv_nil_rootschema;
+    S_mv_validatorAdapter_panic; S_v0_mv_nil_envset; S_v0_mv_nil_envloader; S_mv_MustBaseEnvSet; S_mv_nil_rootschema;
     S_cel_conditionNameRegexp; S_cel_evaluate_bool;
     S_cm_parts0; S_cm_parts1; S_cm_outputMappings;
     S_ro_paths_i; S_ro_paths_j;
-    S_col_objs_i; S_col_panic; S_col_panic_fixed; S_col_entries_i; S_col_entries_j; S_col_phases_i;
+    S_col_objs_i; S_v0_col_panic; S_col_panic; S_col_entries_i; S_col_entries_j; S_col_phases_i;
     S_tmpl_ctx_package; S_tmpl_ctx_metadata;
     S_ps_gvks0; S_ps_groupVersions; S_ps_versions; S_ps_init_panic; S_ps_parts1; S_ps_load_recursion;
     S_ps_convert_ctx_manifest; S_ps_convert_ctx_lock; S_ps_convert_ctx_repo; S_ps_convert_ctx_entry;
@@ -299,9 +457,51 @@ Definition all_sites : list site_id :=
     S_bx_a_Release_idx; S_bx_a_getOwnerReferences_panic; S_bx_a_setOwnerReferences_panic; S_bx_a_indexOf;
     S_bx_a_cmp_panic1; S_bx_a_cmp_panic2; S_bx_a_kinds0;
     S_bx_remove_i; S_bx_remove_last; S_bx_remove_slice;
-    S_bx_n_Release_idx; S_bx_n_cmp_panic1; S_bx_n_cmp_panic2; S_bx_n_referSame_panic ].
+    S_bx_n_Release_idx; S_bx_n_cmp_panic1; S_bx_n_cmp_panic2; S_bx_n_referSame_panic;
+    N_cmd_WaitForCondition_w_waiter; N_tree_RenderPackage_pkgInstance_Manifest;
+    N_tree_getTemplateContext_pkg_Manifest; N_tree_getConfig_pkg_Manifest; N_tree_getConfig_test_Context_Config;
+    N_tree_getConfig_pkg_Manifest_Test_Template_0_Context_Config_via_testCtxCfg;
+    N_update_GenerateLockData_pkg_Manifest; N_update_GenerateLockData_pkg_ManifestLock;
+    N_config_GetBackoff_c_InitialBackoff; N_config_GetBackoff_c_MaxBackoff;
+    N_objecttemplatecontroller_SetEnvironment_c_templateReconciler; N_requestmanager_handleResponse_res_RawPackage;
+    N_helpers_getExpressionCost_cardinalityCost_MaxCardinality; N_helpers_validateMapListKeysMapSet_schema_Items;
+    N_helpers_validateMapListKeysMapSet_schema_XListType; N_helpers_validateMapListKeysMapSet_schema_Items_Schema;
+    N_manifest_ValidatePackageManifest_template_Context_Config;
+    N_manifest_ValidatePackageManifest_obj_Test_Kubeconform;
+    N_manifest_validateConstraints_constraint_PlatformVersion;
+    N_private_validateCustomResourceDefinitionValidation_customResourceValidation_OpenAPIV3Schema_via_schema;
+    N_private_validateCustomResourceDefinitionValidation_celContext_TotalCost;
+    N_private_validateCustomResourceDefinitionOpenAPISchema_schema_AdditionalProperties;
+    N_private_validateCustomResourceDefinitionOpenAPISchema_schema_XListType;
+    N_private_validateCustomResourceDefinitionOpenAPISchema_schema_Items;
+    N_private_validateCustomResourceDefinitionOpenAPISchema_schema_XPreserveUnknownFields;
+    N_private_xmaptypenotnil_schema_XMapType; N_private_xlisttypenotnil_schema_XListType;
+    N_private_xlisttypenotnil_schema_Items; N_private_xlisttypenotnil_schema_Items_Schema_via_is;
+    N_private_xlisttypenotnil_is_XListType; N_private_xlisttypenotnil_is_XMapType;
+    N_private_schemaitemsnotNil_schema_Items; N_private_schemaitemsnotNil_schema_Items_Schema;
+    N_private_validateXListTypeMap_schema_Items; N_private_validateXListTypeMap_schema_Items_Schema;
+    N_private_validateSchemaStuffWithXPrefixedName_celContext_TotalCost;
+    N_private_validateSchemaStuffWithXPrefixedName_cr_Error;
+    N_private_validatePackageManifestConfig_config_OpenAPIV3Schema_via_schema; N_private_Validate_v_v;
+    N_validator_validate_schema_Items; N_cel_evaluate_cc_env; N_objects_RenderObjectsWithFilterInfo_pkg_Manifest;
+    N_objectsettemplate_RenderObjectSetTemplateSpec_pkgInstance_Manifest; N_template_RenderTemplates_pkg_Manifest;
+    N_structure_load_pkg_Manifest; N_kubeconform_defaultKubeconformSchemaLocations_manifest_Test_Kubeconform;
+    N_kubeconform_kubeconformValidatorFromManifest_manifest_Test_Kubeconform;
+    N_lockfile_ValidatePackage_pkg_ManifestLock; N_lockfile_ValidatePackage_pkg_Manifest;
+    N_lockfile_ValidatePackage_pkg_ManifestLock_2; N_templatevalidation_doValidatePackage_pkg_Manifest;
+    N_templatevalidation_runTestCase_testCase_Context_Config; N_validation_ValidatePackage_pkg_Manifest;
+    N_validation_ValidatePackage_pkg_Manifest_2; N_parse_ParseSelector_selector_Kind;
+    N_parse_ParseProbes_probeSpec_FieldsEqual; N_parse_ParseProbes_probeSpec_Condition;
+    N_parse_ParseProbes_probeSpec_CEL; N_bxannotation_GetController_ref_Controller;
+    N_bxannotation_SetControllerReference_ownerRef_Controller; N_bxannotation_IsController_ownerRef_Controller;
+    N_bxannotation_isController_r_Controller; N_bxannotation_getOwnerReconcileRequest_e_ownerStrategy;
+    N_bxnative_GetController_ref_Controller; N_bxnative_IsController_ownerRef_Controller ].
 
-Definition accounted : list (site * verdict) := map (fun i => (descr i, verdict_of i)) all_sites.
+Definition historical (i : site_id) : bool := match verdict_of i with Fixed _ _ => true | _ => false end.
+Definition current_sites : list site_id := filter (fun i => negb (historical i)) all_sites.
+
+(** the table the inventory is checked against: the sites of the present tree only *)
+Definition accounted : list (site * verdict) := map (fun i => (descr i, verdict_of i)) current_sites.
 
 Definition is_accounted (s : site) : bool := existsb (fun a => site_eqb s (fst a)) accounted.
 Definition all_accounted (inventory : list site) : bool := forallb is_accounted inventory.
@@ -437,38 +637,57 @@ Definition line_ok (l : bytes) : bool :=
 Definition condmap_ok (anno : option bytes) : bool :=
   match anno with None => true | Some v => forallb line_ok (split_on nl (trim_space v)) end.
 
-(** phaseCollector.AddObjects (objectsettemplate.go:49-85) over the range indices. The result lists
-    (phase annotation, condition mappings) of the objects in order. *)
-Fixpoint add_objects_from (objs : list pobj) (idxs : list nat) (acc : list (option string * list mapping))
+(** phaseCollector.AddObjects (objectsettemplate.go:50-86) over the range indices. The result lists
+    (phase annotation, condition mappings) of the objects in order. [site] is the explicit panic on a
+    parse error: S_col_panic in the present tree, S_v0_col_panic before commit 6890742. *)
+Fixpoint add_objects_from (site : site_id) (objs : list pobj) (idxs : list nat) (acc : list (option string * list mapping))
   : outcome (list (option string * list mapping)) :=
   match idxs with
   | [] => Ok acc
   | i :: rest =>
-      bind (index_or S_col_objs_i objs i) (fun o =>                      (* :68 &objs[i] *)
+      bind (index_or S_col_objs_i objs i) (fun o =>                      (* :69 &objs[i] *)
       match parse_condmap (o_condmap o) with
       | Panic s => Panic s
-      | Err => Panic S_col_panic                                         (* :69-71 *)
-      | Ok m => add_objects_from objs rest (acc ++ [(o_phase o, m)])
+      | Err => Panic site                                                (* :70-72 *)
+      | Ok m => add_objects_from site objs rest (acc ++ [(o_phase o, m)])
       end)
   end.
-Definition add_objects (objs : list pobj) := add_objects_from objs (seq 0 (List.length objs)) [].
+Definition add_objects (site : site_id) (objs : list pobj) := add_objects_from site objs (seq 0 (List.length objs)) [].
 
 (** RenderObjectSetTemplateSpec after a successful RenderPackageInstance: number of objects that
     land in a phase of the manifest. *)
-Definition collect (phases : list string) (objs : list pobj) : outcome N :=
-  bind (add_objects objs) (fun l =>
+Definition collect_at (site : site_id) (phases : list string) (objs : list pobj) : outcome N :=
+  bind (add_objects site objs) (fun l =>
   Ok (N.of_nat (List.length (filter (fun e => match fst e with
                                           | Some p => existsb (String.eqb p) phases
                                           | None => existsb (String.eqb "") phases
                                           end) l)))).
+Definition collect := collect_at S_col_panic.
 
-(** The pipeline from validated objects on: validators, then the collector. *)
+(** packagerender.parseObjects (objects.go:118-160, since commit 6890742): every parsed object's
+    condition-map annotation goes through parseConditionMapAnnotation; an error is a
+    ViolationReasonInvalidConditionMap. *)
+Fixpoint parse_objects (objs : list pobj) : outcome unit :=
+  match objs with
+  | [] => Ok tt
+  | o :: rest =>
+      match parse_condmap (o_condmap o) with
+      | Panic s => Panic s
+      | Err => Err
+      | Ok _ => parse_objects rest
+      end
+  end.
+
+(** The pipeline from parsed objects on (RenderPackageInstance; RenderObjectSetTemplateSpec):
+    parseObjects, the validators, the collector. *)
 Definition render_and_collect (phases : list string) (objs : list pobj) : outcome N :=
-  if validators_accept phases objs then collect phases objs else Err.
-(** ... with the condition-map grammar enforced before the collector (the repaired tree). *)
-Definition render_and_collect_fixed (phases : list string) (objs : list pobj) : outcome N :=
-  if validators_accept phases objs && forallb (fun o => condmap_ok (o_condmap o)) objs
-  then collect phases objs else Err.
+  bind (parse_objects objs) (fun _ =>
+  if validators_accept phases objs then collect phases objs else Err).
+
+(** HISTORICAL (before commit 6890742 "reject a malformed condition-map annotation when parsing package
+    objects"): no stage looked at the annotation before the collector. *)
+Definition render_and_collect_v0 (phases : list string) (objs : list pobj) : outcome N :=
+  if validators_accept phases objs then collect_at S_v0_col_panic phases objs else Err.
 
 (* ------------------------------------------------------------------ JSON shapes
    What a client hands out for an object of the cluster: maps, slices, strings, bools, int64 for
@@ -610,52 +829,74 @@ Definition map_conditions (mappings : list (string * string)) (obj : list (strin
    template_reconciler.go:354-402 updateStatusConditionsFromOwnedObject. [gen] is the ObjectTemplate's
    generation. Result: the condition types copied to the ObjectTemplate. *)
 
-Definition assert_string (s : site_id) (kvs : list (string * json)) (k : string) : outcome string :=
-  match jget k kvs with Some (JStr v) => Ok v | _ => Panic s end.
-
 Definition entry_strings (kvs : list (string * json)) : bool :=
   forallb (fun k => match jget k kvs with Some (JStr _) => true | _ => false end)
           ["type"; "status"; "reason"; "message"].
 
-(** one round of the loop :376-400; [None] = the entry is skipped as outdated *)
+(** one round of the loop :376-408; [None] = the entry is skipped as outdated. The four fields are read
+    with comma-ok assertions (:392-398, since commit a818a7e); an entry with a missing or non-string field is
+    a BadRequest "malformed condition". *)
 Definition copy_one (objgen : Z) (kvs : list (string * json)) : outcome (option string) :=
   match as_int64 (nested1 kvs "observedGeneration") with                (* :382 *)
   | IError => Err
   | og =>
       let ogv := match og with IVal z => z | _ => 0%Z end in
       if negb (Z.eqb objgen ogv) then Ok None                            (* :387 *)
+      else if entry_strings kvs
+           then Ok (match jget "type" kvs with Some (JStr ty) => Some ty | _ => None end)
+           else Err                                                      (* :396-398 *)
+  end.
+
+(** HISTORICAL (before commit a818a7e "do not panic on malformed source items and conditions in
+    ObjectTemplates"): four unchecked assertions, evaluated in order. *)
+Definition assert_string (s : site_id) (kvs : list (string * json)) (k : string) : outcome string :=
+  match jget k kvs with Some (JStr v) => Ok v | _ => Panic s end.
+
+Definition copy_one_v0 (objgen : Z) (kvs : list (string * json)) : outcome (option string) :=
+  match as_int64 (nested1 kvs "observedGeneration") with
+  | IError => Err
+  | og =>
+      let ogv := match og with IVal z => z | _ => 0%Z end in
+      if negb (Z.eqb objgen ogv) then Ok None
       else
-        bind (assert_string S_ot_cond_type kvs "type") (fun ty =>        (* :393 *)
-        bind (assert_string S_ot_cond_status kvs "status") (fun _ =>     (* :394 *)
-        bind (assert_string S_ot_cond_reason kvs "reason") (fun _ =>     (* :396 *)
-        bind (assert_string S_ot_cond_message kvs "message") (fun _ =>   (* :397 *)
+        bind (assert_string S_v0_ot_cond_type kvs "type") (fun ty =>
+        bind (assert_string S_v0_ot_cond_status kvs "status") (fun _ =>
+        bind (assert_string S_v0_ot_cond_reason kvs "reason") (fun _ =>
+        bind (assert_string S_v0_ot_cond_message kvs "message") (fun _ =>
         Ok (Some ty)))))
   end.
 
-Fixpoint copy_conditions (objgen : Z) (conds : list json) (acc : list string) : outcome (list string) :=
-  match conds with
-  | [] => Ok acc
-  | JObj kvs :: rest =>                                                   (* :377 *)
-      bind (copy_one objgen kvs) (fun r =>
-      copy_conditions objgen rest (match r with Some ty => add_distinct ty acc | None => acc end))
-  | _ :: _ => Err                                                         (* :379 *)
-  end.
+Section CopyConditions.
+  Variable one : Z -> list (string * json) -> outcome (option string).
 
-Definition conditions_of (gen_check : bool) (obj : list (string * json)) : outcome (list string) :=
-  if negb gen_check then Ok [] else                                      (* :361-366 *)
-  match nested2 obj "status" "conditions" with                           (* :368 NestedSlice *)
-  | NError => Err
-  | NAbsent => Ok []
-  | NFound (JArr l) => copy_conditions (generation_of obj) l []
-  | NFound _ => Err
-  end.
+  Fixpoint copy_conditions_with (objgen : Z) (conds : list json) (acc : list string) : outcome (list string) :=
+    match conds with
+    | [] => Ok acc
+    | JObj kvs :: rest =>                                                   (* :377 *)
+        bind (one objgen kvs) (fun r =>
+        copy_conditions_with objgen rest (match r with Some ty => add_distinct ty acc | None => acc end))
+    | _ :: _ => Err                                                         (* :379 *)
+    end.
 
-Definition template_conditions (gen : Z) (obj : list (string * json)) : outcome (list string) :=
-  match as_int64 (nested2 obj "status" "observedGeneration") with       (* :357 *)
-  | IError => Err
-  | IVal z => conditions_of (Z.eqb z gen) obj
-  | IAbsent => conditions_of true obj
-  end.
+  Definition conditions_of_with (gen_check : bool) (obj : list (string * json)) : outcome (list string) :=
+    if negb gen_check then Ok [] else                                      (* :361-366 *)
+    match nested2 obj "status" "conditions" with                           (* :368 NestedSlice *)
+    | NError => Err
+    | NAbsent => Ok []
+    | NFound (JArr l) => copy_conditions_with (generation_of obj) l []
+    | NFound _ => Err
+    end.
+
+  Definition template_conditions_with (gen : Z) (obj : list (string * json)) : outcome (list string) :=
+    match as_int64 (nested2 obj "status" "observedGeneration") with       (* :357 *)
+    | IError => Err
+    | IVal z => conditions_of_with (Z.eqb z gen) obj
+    | IAbsent => conditions_of_with true obj
+    end.
+End CopyConditions.
+
+Definition template_conditions := template_conditions_with copy_one.
+Definition template_conditions_v0 := template_conditions_with copy_one_v0.
 
 (** all four fields of every condition entry the function would copy are strings *)
 Definition cond_entry_ok (c : json) : bool :=
@@ -681,8 +922,13 @@ Definition relaxed_jsonpath (key_empty : bool) (submatches : option (list string
 
 (** template_reconciler.go:255-292 copySourceItem. Library behaviour enters as parameters: the
     regular expression match, the outcome of jsonpath Parse/Execute + json.Unmarshal ([None] = one of
-    them returned an error), whether SetNestedField succeeds. *)
-Definition copy_source_item (key_empty : bool) (submatches : option (list string)) (executed : option json)
+    them returned an error), whether SetNestedField succeeds. [len_checked] = the destination's length is
+    checked before it is indexed (:283, since commit a818a7e). *)
+Definition first_char (s : site_id) (d : string) : outcome ascii :=
+  match d with EmptyString => Panic s | String c _ => Ok c end.
+
+Definition copy_source_item_at (len_checked : bool) (s : site_id)
+           (key_empty : bool) (submatches : option (list string)) (executed : option json)
            (destination : string) (set_ok : bool) : outcome unit :=
   bind (relaxed_jsonpath key_empty submatches) (fun _ =>                 (* :260 *)
   match executed with
@@ -692,22 +938,16 @@ Definition copy_source_item (key_empty : bool) (submatches : option (list string
             | JArr vs => if Nat.eqb (List.length vs) 1 then index_or S_ot_vslice0 vs 0 else Ok value   (* :279-281 *)
             | _ => Ok value
             end) (fun _ =>
-      match destination with
-      | EmptyString => Panic S_ot_destination0                            (* :283 item.Destination[0] *)
-      | String c _ =>
-          if negb (Ascii.eqb c "."%char) then Err                         (* :284 *)
-          else if set_ok then Ok tt else Err                              (* :287 *)
-      end)
+      if len_checked && Nat.eqb (String.length destination) 0 then Err     (* :283 len(item.Destination) == 0 || *)
+      else
+        bind (first_char s destination) (fun c =>                          (* :283 item.Destination[0] *)
+        if negb (Ascii.eqb c "."%char) then Err                            (* :284 *)
+        else if set_ok then Ok tt else Err))                               (* :287 *)
   end).
 
-(** the same with the length check of fixes/C19-objecttemplate.diff *)
-Definition copy_source_item_fixed (key_empty : bool) (submatches : option (list string)) (executed : option json)
-           (destination : string) (set_ok : bool) : outcome unit :=
-  match destination with
-  | EmptyString => bind (relaxed_jsonpath key_empty submatches) (fun _ =>
-                   match executed with None => Err | Some _ => Err end)
-  | _ => copy_source_item key_empty submatches executed destination set_ok
-  end.
+Definition copy_source_item := copy_source_item_at true S_ot_destination0.
+(** HISTORICAL (before commit a818a7e): the destination was indexed without a length check. *)
+Definition copy_source_item_v0 := copy_source_item_at false S_v0_ot_destination0.
 
 (* ------------------------------------------------------------------ (4) packageimport.FromOCI
    oci.go:20-68. The tar stream as the sequence of results of tarReader.Next together with whether the
@@ -720,31 +960,33 @@ Inductive tar_event :=
 | THeader (p : path_class) (body_ok : bool)   (* Next returned a header; the body is complete or breaks off *)
 | TError.                                      (* Next returned a non-EOF error *)
 
+(** oci.go:34-64 (since commit e1805ac): every error of Next other than io.EOF is returned. *)
 Fixpoint from_oci (evs : list tar_event) (files : N) : outcome N :=
   match evs with
-  | [] => if N.eqb files 0 then Err else Ok files                        (* :35-37 EOF, :62 *)
-  | TError :: _ => Panic S_imp_hdr                                       (* :40 hdr is nil *)
+  | [] => if N.eqb files 0 then Err else Ok files                        (* :37-39 EOF, :66 *)
+  | TError :: _ => Err                                                   (* :40 *)
   | THeader p body_ok :: rest =>
       match p with
-      | PRelError => Err                                                 (* :41-43 *)
+      | PRelError => Err                                                 (* :43-46 *)
       | POutside | PUnder true =>
-          (* :44-51 continue without reading the body: the next Next() has to skip it, fails with a
-             non-EOF error where it breaks off, and hdr is nil at :40 *)
-          if body_ok then from_oci rest files else Panic S_imp_hdr
-      | PUnder false => if body_ok then from_oci rest (files + 1) else Err    (* :53-58 *)
+          (* :47-54 continue without reading the body: the next Next() has to skip it and fails with a
+             non-EOF error where it breaks off *)
+          if body_ok then from_oci rest files else Err
+      | PUnder false => if body_ok then from_oci rest (files + 1) else Err    (* :56-61 *)
       end
   end.
 
-(** with the error check of fixes/C19-oci.diff *)
-Fixpoint from_oci_fixed (evs : list tar_event) (files : N) : outcome N :=
+(** HISTORICAL (before commit e1805ac "return tar read errors from FromOCI instead of dereferencing a nil
+    header"): only io.EOF was handled, hdr.Name was read from the nil header after any other error. *)
+Fixpoint from_oci_v0 (evs : list tar_event) (files : N) : outcome N :=
   match evs with
   | [] => if N.eqb files 0 then Err else Ok files
-  | TError :: _ => Err
+  | TError :: _ => Panic S_v0_imp_hdr
   | THeader p body_ok :: rest =>
       match p with
       | PRelError => Err
-      | POutside | PUnder true => if body_ok then from_oci_fixed rest files else Err
-      | PUnder false => if body_ok then from_oci_fixed rest (files + 1) else Err
+      | POutside | PUnder true => if body_ok then from_oci_v0 rest files else Panic S_v0_imp_hdr
+      | PUnder false => if body_ok then from_oci_v0 rest (files + 1) else Err
       end
   end.
 
@@ -759,16 +1001,21 @@ Definition no_tar_error (evs : list tar_event) : bool :=
 (* ------------------------------------------------------------------ (4b) x-kubernetes-validations of the config schema
    packagemanifestvalidation/private.go:662-690 (validateSchemaStuffWithXPrefixedName) and
    apiextensions-apiserver schema/cel/compilation.go:120-160 (Compile, prepareEnvSet). Library behaviour
-   enters as parameters; [base_env] says whether the caller hands a CEL environment set to Compile - the
-   present tree passes a literal nil. *)
+   enters as parameters; [base_env] says whether the caller hands a CEL environment set to Compile. *)
 
-Definition compile_xvalidations (schema_errors celctx_nil typeinfo_err typeinfo_nil : bool) (rules : nat)
-           (decltype_nil base_env : bool) : outcome unit :=
+Definition compile_xvalidations_with (base_env : bool)
+           (schema_errors celctx_nil typeinfo_err typeinfo_nil : bool) (rules : nat) (decltype_nil : bool) : outcome unit :=
   if schema_errors || celctx_nil then Ok tt else                        (* private.go:665 *)
   if typeinfo_err || typeinfo_nil then Ok tt else                       (* :668-682: an InternalError is recorded *)
   if Nat.eqb rules 0 then Ok tt else                                     (* compilation.go:126 *)
-  if decltype_nil then Ok tt else                                        (* :129: error, recorded at private.go:685 *)
-  if base_env then Ok tt else Panic S_mv_nil_envset.                     (* :134 prepareEnvSet calls Extend on the nil EnvSet *)
+  if decltype_nil then Ok tt else                                        (* :129: error, recorded at private.go:690 *)
+  if base_env then Ok tt else Panic S_v0_mv_nil_envset.                  (* :134 prepareEnvSet calls Extend on the nil EnvSet *)
+
+(** since commit 35e301a the call passes environment.MustBaseEnvSet(..) and an EnvLoader *)
+Definition compile_xvalidations := compile_xvalidations_with true.
+(** HISTORICAL (before commit 35e301a "compile x-kubernetes-validations of the config schema with a CEL
+    environment"): literal nil for both *)
+Definition compile_xvalidations_v0 := compile_xvalidations_with false.
 
 (* ------------------------------------------------------------------ (5) annotation owner strategy
    boxcutter ownerhandling/annotation.go:213-229 getOwnerReferences, as called by the PhaseReconciler
